@@ -1,5 +1,6 @@
 import MsqProofs.Lemmas.ParseCase8
 import MsqProofs.Props.C09
+import MsqProofs.Lemmas.LexLink
 /-!
 # C09, parser half: the letter case of WORD tokens never changes what the parser does
 
@@ -22,7 +23,8 @@ in `Lemmas/ParseCase7.lean`) a lemma `f_ce : args ~ args' → f args ≈ f args'
   cursors (hence the same number of unconsumed tokens) — the typed `≈` form for each entry is the lemma `PM.<function>_ce` it wraps.
 * text level: `C09.parse_case_invariant_text`, `C09.parseText_case_invariant` (the entry points on text, with the fuel they compute
   themselves: `fuelFor` does not depend on letter case, `cel_sizeL`), composed with the lexer half through `C09.keyword_variants_ce`
-  (every one of the 1292 letter-case variants of the 27 keyword-table entries lexes to a token `CE`-related to the upper-case one).
+  (every one of the 1292 letter-case variants of the 27 keyword-table entries lexes to a token `CE`-related to the upper-case one) and
+  `C09.word_recase` (any word not beginning with `b B x X`, in any delimiter context: `LexLink.lx_word` + `wordMark_upper`).
 
 ## What the `≈` form leaves open (the sharp form)
 `≈` does not say WHICH stored texts may differ.  The sharp statement "if the differing tokens are keywords in keyword position the trees
@@ -360,6 +362,20 @@ theorem keyword_variants_ce (e : String × Nat) (he : e ∈ Gen.wordMarks) (v : 
   have h2' := h2 e he
   simp only [caseOK, List.all_eq_true, Bool.and_eq_true] at h2'
   exact ⟨by simp [ce_of_ceWordB _ _ _ (h1 e he v hv)], (h2' v hv).2⟩
+
+/-- **C09.word_recase**: ANY word, not only the 27 keywords (`isWord`: it does not begin with a digit or with `b B x X`, the prefixes of
+bit / hex literals), in two letter cases: in every delimiter context (`LexLink.Lx`: after any text that leaves the lexer between tokens,
+before a blank, `)`, `,`, line break or the end) each spelling lexes to ONE token, and the two tokens are `CE`-related (same marks by
+`wordMark_upper`) — so re-casing such a word in a text changes the token list within `CEL`, position by position. -/
+theorem word_recase (v w : List Char) (hv : C05.isWord v = true) (hw : C05.isWord w = true) (cv : caseWord v = true) (cw : caseWord w = true)
+    (hu : Gen.pyUpper v = Gen.pyUpper w) :
+    LexLink.Lx v [.single v (C05.wordMark v)] ∧ LexLink.Lx w [.single w (C05.wordMark w)] ∧
+      CE (.single v (C05.wordMark v)) (.single w (C05.wordMark w)) := by
+  refine ⟨LexLink.lx_word v hv, LexLink.lx_word w hw, ?_⟩
+  have : C05.wordMark v = C05.wordMark w := wordMark_upper v w hu
+  rw [this]; simp only [CE, true_and]; exact .inr ⟨cv, cw, hu⟩
+example : C05.isWord "wHeRe".toList = true ∧ C05.isWord "WHERE".toList = true ∧ caseWord "wHeRe".toList = true ∧ caseWord "WHERE".toList = true ∧
+    Gen.pyUpper "wHeRe".toList = Gen.pyUpper "WHERE".toList := by decide +kernel
 
 /-! ## non-vacuity (tests: `String` functions do not reduce in the kernel, so these are evaluated `#guard`s) -/
 
